@@ -812,6 +812,6 @@ func TestC19(t *testing.T) {
 		Oracle:   oracle,
 		Fixed:    fixed,
 		Quick:    20000,
-		Thorough: 600000,
+		Thorough: 250000,
 	})
 }
